@@ -52,6 +52,97 @@ pub fn c13_pins() -> Vec<(&'static str, &'static str)> {
     ]
 }
 
+/// What an inlined copy has to look like (independent statement of `append_code`'s contract):
+/// every local label defined in the body and every local label named by an instruction of the body
+/// carries the suffix `inline<N>` of the expansion, nothing else changes.
+fn renamed_for_expansion(line: &str, n: &str) -> String {
+    let t = line.trim_end();
+    if t.starts_with('.') {
+        return format!("{}inline{}", t, n);
+    }
+    let body = t.trim_start();
+    let mut it = body.splitn(2, char::is_whitespace);
+    let _mn = it.next().unwrap_or("");
+    let op = it.next().unwrap_or("").trim();
+    if op.starts_with('.') && op.chars().skip(1).all(|c| c.is_ascii_alphanumeric() || c == '_') {
+        return format!("{}inline{}", t, n);
+    }
+    t.to_string()
+}
+
+/// -O0 only (no optimiser pass separates the body from its copies): each expansion closed by a
+/// `.endofinline<N>` label of a function must be the renamed text of one of the inline functions.
+/// A label reference left without its suffix is text the assembler binds to the wrong place (the
+/// caller's label of the same name) or rejects.  Returns (expansions checked, skipped, violation).
+fn inline_copies_check(obs: &Obs) -> (u64, u64, Option<String>) {
+    let mut checked = 0;
+    let mut skipped = 0;
+    let bodies: Vec<(&str, Vec<&str>, bool)> = obs
+        .funcs
+        .iter()
+        .filter(|f| f.inline && f.text.is_some())
+        .map(|f| (f.name.as_str(), f.text.as_ref().unwrap().lines().map(|l| l.trim_end()).filter(|l| !l.is_empty()).collect(), f.nb_fix > 0))
+        .collect();
+    if bodies.is_empty() {
+        return (0, 0, None);
+    }
+    for f in &obs.funcs {
+        let text = match &f.text {
+            Some(t) => t,
+            None => continue,
+        };
+        let lines: Vec<&str> = text.lines().map(|l| l.trim_end()).filter(|l| !l.is_empty()).collect();
+        for (j, l) in lines.iter().enumerate() {
+            let n = match l.strip_prefix(".endofinline") {
+                Some(n) if !n.is_empty() && n.chars().all(|c| c.is_ascii_digit()) => n,
+                _ => continue,
+            };
+            let mut best: Option<(usize, String)> = None;
+            let mut matched = false;
+            let mut any_fixed = false;
+            for (name, body, fixed) in &bodies {
+                if *name == f.name || body.len() > j {
+                    continue;
+                }
+                if *fixed {
+                    any_fixed = true;
+                    continue;
+                }
+                let start = j - body.len();
+                let mut miss = 0;
+                let mut first = String::new();
+                for (k, bl) in body.iter().enumerate() {
+                    let want = renamed_for_expansion(bl, n);
+                    if lines[start + k] != want {
+                        if miss == 0 {
+                            first = format!("copy of {} line {}: emitted '{}', the renamed body line is '{}'", name, k + 1, lines[start + k].trim(), want.trim());
+                        }
+                        miss += 1;
+                    }
+                }
+                if miss == 0 {
+                    matched = true;
+                    break;
+                }
+                if best.as_ref().map(|b| miss < b.0).unwrap_or(true) {
+                    best = Some((miss, first));
+                }
+            }
+            if matched {
+                checked += 1;
+            } else if any_fixed || f.nb_fix > 0 {
+                // long-branch repair rewrote lines of the body or of this function after the copy was made
+                skipped += 1;
+            } else if let Some((miss, first)) = best {
+                return (checked, skipped, Some(format!("function {}: expansion inline{} is not the renamed copy of any inline function ({} line(s) differ from the closest): {}", f.name, n, miss, first)));
+            } else {
+                skipped += 1;
+            }
+        }
+    }
+    (checked, skipped, None)
+}
+
 fn c13_source(kind: &str, idx: u64, src: &str, opts_base: &Opts, levels: &[u8], sig: Option<String>) -> CaseResult {
     let mut res = CaseResult::new("accepted", crate::util::hash_str(src));
     for lvl in levels {
@@ -170,6 +261,21 @@ fn c13_source(kind: &str, idx: u64, src: &str, opts_base: &Opts, levels: &[u8], 
             );
             return res;
         }
+        if *lvl == 0 && !mutant {
+            let (n, sk, bad) = inline_copies_check(obs);
+            res.count("inline expansions compared with the renamed body", n);
+            res.count("inline expansions not compared (long-branch repair rewrote the text)", sk);
+            if let Some(w) = bad {
+                let s = sig.clone().unwrap_or(format!("C13:{}:{}", kind, idx));
+                res.class = "accepted but an inlined copy binds a label to the wrong place".into();
+                res.violate(
+                    &s,
+                    &format!("C13 -O0: {}\n--- source\n{}", w, src),
+                    json!({"kind": kind, "idx": idx, "opt": lvl, "why": w, "source": src, "listing": listing(obs)}),
+                );
+                return res;
+            }
+        }
     }
     res.class = "accepted and assembles".into();
     res
@@ -187,7 +293,11 @@ impl Monitor for C13 {
          placements, hardware-register programs, padded long-branch programs, label-stress programs with multiple and nested inlining) \
          at -O0 and -O1 (-O2/-O3 on a tenth) is parsed by the independent assembler: official opcode/mode matrix with DASM's zero-page rule, \
          per-function local label scopes, global symbols from the linker-like layout; errors = illegal mode, undefined symbol, duplicate \
-         label, out-of-range branch or operand. non-trivial = accepted and assembled"
+         label, out-of-range branch or operand. Emitted code may only name routines and cells of functions in functions_actually_in_use. At -O0 every \
+         expansion closed by a .endofinline<N> label must be, line for line, the body of one of the inline functions with the suffix inline<N> on every \
+         local label it defines or names (a reference left unrenamed binds to the caller's label of that name); expansions whose text long-branch \
+         repair rewrote are counted as not compared. Token mutants of valid programs that the compiler accepts must assemble too. \
+         non-trivial = accepted and assembled"
             .into()
     }
     fn assumptions(&self) -> Vec<String> {
@@ -232,6 +342,7 @@ impl Monitor for C13 {
             ("distinct_nontrivial".into(), if *tier == Tier::Quick { 15000 } else { 100000 }),
             ("set:mnemonic x addressing mode emitted".into(), 90),
             ("set:local label families".into(), 25),
+            ("inline expansions compared with the renamed body".into(), 5000),
         ]
     }
 }
